@@ -1322,6 +1322,137 @@ class _TokenSizes:
         return self.scan(st_node, st)
 
 
+# -------------------------------------------------------------------------------------------------
+# path facts: "which value did this call return on the paths that reach a given exit"
+# -------------------------------------------------------------------------------------------------
+class FactPaths:
+    """Walks the statement tree of one function and tracks, per path, the outcome of ONE designated call (the fact):
+    'T' = it succeeded (bool kind: returned true; cmp0 kind: compared equal, i.e. returned 0), 'F' = it did not,
+    'U' = not evaluated on this path.  Conditions are split by polarity (`!`, `&&`, `||`, `== / != 0|true|false`, a const local
+    holding the result).  Collects every normal exit (Return nodes and falling off the end) with the set of possible outcomes."""
+
+    def __init__(self, fn, is_fact, kind):
+        self.fn, self.is_fact, self.kind = fn, is_fact, kind
+        self.aliases = set()       # decl ids of locals initialised with the fact call
+        self.pol_alias = {}        # decl ids of bool locals initialised with a test of the fact -> polarity
+        self.exits = []            # (return node | None, frozenset of outcomes)
+        self.unknown = []          # conditions that mention the fact but are not understood
+        self.ncalls = sum(1 for n in fn.nodes() if is_fact(n))
+
+    @staticmethod
+    def strip(n):
+        while n is not None and (n.get("k") == "Cast" or (n.get("k") in ("Construct", "TempObj") and len(n.get("a", [])) == 1 and n.get("ccls") in ("bool", "int"))):
+            n = n["e"] if n.get("k") == "Cast" else n["a"][0]
+        return n
+
+    def mentions(self, n):
+        return any(self.is_fact(x) or (x.get("k") == "Ref" and (x.get("d") in self.aliases or x.get("d") in self.pol_alias)) for x in featlib.walk(n))
+
+    def atom(self, c):
+        """+1: c is true exactly when the fact succeeded; -1: exactly when it failed; None: not an atom of the fact"""
+        c = self.strip(c)
+        if c is None:
+            return None
+        if c.get("k") == "Ref" and c.get("d") in self.pol_alias:
+            return self.pol_alias[c["d"]]
+        base = self.is_fact(c) or (c.get("k") == "Ref" and c.get("d") in self.aliases)
+        if base:
+            return 1 if self.kind == "bool" else -1          # a bare compare result is true when it is non-zero (mismatch)
+        if c.get("k") == "Bin" and c.get("op") in ("==", "!="):
+            for a, b in ((c["lhs"], c["rhs"]), (c["rhs"], c["lhs"])):
+                a, b = self.strip(a), self.strip(b)
+                if a is not None and (self.is_fact(a) or (a.get("k") == "Ref" and a.get("d") in self.aliases)) and b is not None and b.get("k") in ("Int", "Bool"):
+                    v = int(b["v"]) if b["k"] == "Int" else int(bool(b["v"]))
+                    if self.kind == "bool":
+                        p = 1 if v else -1
+                    elif v == 0:
+                        p = 1
+                    else:
+                        return None
+                    return p if c["op"] == "==" else -p
+        return None
+
+    def split(self, c, S):
+        """-> (outcomes on the true edge, outcomes on the false edge)"""
+        c = self.strip(c)
+        if c is None:
+            return S, S
+        if c.get("k") == "Un" and c.get("op") == "!":
+            t, f = self.split(c["e"], S)
+            return f, t
+        if c.get("k") == "Bin" and c.get("op") == "&&":
+            t1, f1 = self.split(c["lhs"], S)
+            t2, f2 = self.split(c["rhs"], t1)
+            return t2, f1 | f2
+        if c.get("k") == "Bin" and c.get("op") == "||":
+            t1, f1 = self.split(c["lhs"], S)
+            t2, f2 = self.split(c["rhs"], f1)
+            return t1 | t2, f2
+        p = self.atom(c)
+        if p is not None:
+            S2 = (S - {"U"}) | ({"T", "F"} if "U" in S else set())
+            t = S2 & ({"T"} if p > 0 else {"F"})
+            return t, S2 - t
+        if self.mentions(c):
+            self.unknown.append(c)
+        return S, S
+
+    def evaluated(self, n, S):
+        """an expression statement / initialiser that contains the fact call evaluates it"""
+        if n is not None and any(self.is_fact(x) for x in featlib.walk(n)) and "U" in S:
+            return (S - {"U"}) | {"T", "F"}
+        return S
+
+    def run(self, st, S):
+        if st is None or not S:
+            return S
+        k = st.get("k")
+        if k == "Block":
+            for x in st.get("s", []):
+                S = self.run(x, S)
+            return S
+        if k == "Decl":
+            for v in st.get("vars", []):
+                init = self.strip(v.get("init"))
+                if init is not None and self.is_fact(init) and not v.get("ref"):
+                    self.aliases.add(v["d"])
+                elif init is not None and not v.get("ref") and self.atom(init) is not None:
+                    self.pol_alias[v["d"]] = self.atom(init)
+                    S = self.evaluated(init, S)
+                elif init is not None:
+                    S = self.evaluated(init, S)
+            return S
+        if k == "If":
+            t, f = self.split(st["c"], S)
+            a = self.run(st.get("then"), set(t))
+            b = self.run(st.get("else"), set(f)) if st.get("else") is not None else set(f)
+            return a | b
+        if k == "Return":
+            e = st.get("e")
+            S2 = S
+            if e is not None and self.atom(e) is None:
+                S2 = self.evaluated(e, S)
+            self.exits.append((st, frozenset(S2)))
+            return set()
+        if k == "Throw" or (featlib.is_call(st) and st.get("noreturn")):
+            return set()
+        if k in ("For", "While", "Do", "ForRange", "Switch", "Try"):
+            if self.mentions(st):
+                self.unknown.append(st)
+            return S
+        if k in ("Case", "Default", "Attributed"):
+            return self.run(st.get("s"), S)
+        if k == "Assign" and self.strip(st.get("lhs")) is not None and self.strip(st["lhs"]).get("d") in self.aliases:
+            self.unknown.append(st)
+        return self.evaluated(st, S)
+
+    def analyse(self):
+        rest = self.run(self.fn.body, {"U"})
+        if rest:
+            self.exits.append((None, frozenset(rest)))
+        return self
+
+
 def check_token_access(ck, facts):
     RULE = "E7.token-access"
     done = set()
@@ -1459,7 +1590,9 @@ def run(tier):
                 seen[k] = seen.get(k, 0) + 1
             dup = [k for k, c in seen.items() if c > 1]
             if dup:
-                problems.append("slots assigned more than once: %s" % dup[:4])
+                # a later store overwriting an earlier one (zero-fill followed by the non-zero entries) is fine: the last store
+                # wins and the final table is what every identity below is decided on
+                ck.note("%s: %d slot(s) stored more than once (last store wins), e.g. %s" % (inst, len(dup), dup[:3]))
         ck.ob("E9.extract", inst, not problems, "; ".join(problems[:5]) if problems else "table complete: %d points x (1 weight + %d coords)" % (r.n, r.dim), f.file, f.line,
               sample={"entry": f.full, "points": r.n, "first_point": [repr(r.w.get(0)), [repr(r.x.get((0, j))) for j in range(r.dim or 0)]]})
         return not problems
@@ -1792,16 +1925,19 @@ def run(tier):
         if f.tk == "pattern":
             continue
         if f.name == "create_throw" and "DynamicFactory" in f.cls:
-            # throw must be control dependent on !create(...)
-            body = f.body
-            ok = False
-            for n in featlib.walk(body):
-                if n.get("k") == "If":
-                    c = n.get("c")
-                    if c.get("k") == "Un" and c.get("op") == "!" and featlib.is_call(c["e"]) and c["e"].get("callee", "").endswith("::create"):
-                        if any(x.get("k") == "Throw" for x in featlib.walk(n.get("then"))):
-                            ok = True
-            ck.ob("E7.unknown-refused", "create_throw/" + f.full.split("create_throw")[-1][:60], ok, "throw UnknownRule is guarded by !create(rule,name)" if ok else "create_throw does not throw on a failed create", f.file, f.line)
+            # no normal exit on a path on which create(rule, name) returned false (or was not called)
+            fp = FactPaths(f, lambda n: featlib.is_call(n) and n.get("callee", "").endswith("::create") and n.get("k") != "OpCall", "bool").analyse()
+            key = "create_throw/" + f.full.split("create_throw")[-1][:60]
+            if fp.unknown:
+                ck.incomplete("E7.unknown-refused", "%s: the result of create(rule,name) is used in `%s`, which this rule does not understand" % (key, featlib.render(fp.unknown[0])[:100]))
+            else:
+                bad = [(r, o) for r, o in fp.exits if o != frozenset({"T"})]
+                ok = fp.ncalls >= 1 and not bad
+                where = ("line %s" % bad[0][0].get("l") if bad and bad[0][0] is not None else "the end of the function")
+                ck.ob("E7.unknown-refused", key, ok, "every normal exit is reached only after create(rule,name) returned true; the other paths throw" if ok else
+                      ("create_throw does not call create(rule,name)" if fp.ncalls == 0 else
+                       "create_throw returns normally at %s on a path on which create(rule,name) %s: an unknown rule name is not reported" % (
+                           where, "returned false" if "F" in bad[0][1] else "was not evaluated")), f.file, f.line)
         if f.name == "factory" and "CreateFunctor" in f.cls:
             # _okay only assigned from Factory_::create
             ok = True
@@ -1816,25 +1952,26 @@ def run(tier):
                 ck.ob("E7.unknown-refused", "CreateFunctor::factory/" + str(abs(hash(f.full)) % 10 ** 8), ok, "_okay is assigned only from Factory::create(rule,name)", f.file, f.line, trivial=True)
         if f.name == "create" and len(f.params) == 2 and f.type(f.params[1]["t"]).endswith("String &") and strip_targs(f.cls) in (
                 "FEAT::Cubature::DriverFactory", "FEAT::Cubature::Scalar::DriverFactory"):
-            # every `return true`/`return create(...)` is preceded by the name comparison returning false on mismatch
-            cmp_found = False
-            for n in featlib.walk(f.body):
-                if n.get("k") == "If":
-                    cs = featlib.render(n.get("c"))
-                    if "compare_no_case" in cs and "!= 0" in cs:
-                        rets = [x for x in featlib.walk(n.get("then")) if x.get("k") == "Return"]
-                        if rets and all(featlib.render(x.get("e")) == "false" for x in rets):
-                            cmp_found = True
-            cfg = f.cfg
-            ok = cmp_found
-            if ok and cfg is not None:
-                # the comparison must dominate every non-false return
-                cmp_ids = [n["i"] for n in f.nodes() if n.get("k") == "MCall" and n.get("n") == "compare_no_case"]
-                for n in f.nodes():
-                    if n.get("k") == "Return" and featlib.render(n.get("e")) != "false":
-                        if not any(cfg.stmt_dominates(ci, n["i"]) for ci in cmp_ids):
-                            ok = False
-            ck.ob("E7.unknown-refused", "name-check/" + f.full[:110], ok, "name comparison (compare_no_case != 0 -> return false) dominates every successful return" if ok else "a successful return is reachable without the name comparison", f.file, f.line)
+            # every return other than `return false` is reached only on paths where the name compared equal to Driver::name()
+            def is_name_cmp(n):
+                if not (n.get("k") == "MCall" and n.get("n") in ("compare_no_case", "compare") and n.get("a")):
+                    return False
+                sides = [n["a"][0], n.get("obj")]
+                return any(x is not None and any(y.get("k") == "Call" and y.get("callee", "").endswith("::name") for y in featlib.walk(x)) for x in sides)
+            fp = FactPaths(f, is_name_cmp, "cmp0").analyse()
+            key = "name-check/" + f.full[:110]
+            if fp.unknown:
+                ck.incomplete("E7.unknown-refused", "%s: the result of the name comparison is used in `%s`, which this rule does not understand" % (key, featlib.render(fp.unknown[0])[:100]))
+            else:
+                def is_false(r):
+                    e = FactPaths.strip(r.get("e")) if r is not None else None
+                    return e is not None and e.get("k") == "Bool" and not e["v"]
+                bad = [(r, o) for r, o in fp.exits if not is_false(r) and o != frozenset({"T"})]
+                ok = fp.ncalls >= 1 and not bad
+                ck.ob("E7.unknown-refused", key, ok, "every return other than `return false` is reached only where the name compared equal to Driver::name()" if ok else
+                      ("no comparison of the name with Driver::name() found" if fp.ncalls == 0 else
+                       "the return at line %s is reachable %s: another name is answered with this driver's rule" % (
+                           bad[0][0].get("l") if bad[0][0] is not None else "?", "although the name comparison failed" if "F" in bad[0][1] else "without the name comparison")), f.file, f.line)
 
     # ---- classical alias names are answered with the formula they denote
     check_alias_identity(ck, facts, folder_proto, rules, degrees, shape_of, tier)
